@@ -21,6 +21,9 @@ var thunderFrame = regexp.MustCompile(`github\.com/samsarahq/thunder/([A-Za-z0-9
 
 func buildCases(o *vh.Opts) []Case {
 	var cases []Case
+	if o.Search != "" {
+		return searchCases(o)
+	}
 	if o.Replay != "" {
 		var c Case
 		if vh.ReadReplayCase(o.Replay, &c) {
@@ -171,6 +174,11 @@ func main() {
 	}
 	_ = e
 
+	if o.Search != "" {
+		// failing-input search: the oracle only, no model cases
+		run.Finish()
+		return
+	}
 	// the schema the model's prepare runs against: what the builder produced for the test schema
 	live := gqlty.NewLive()
 	sch := gqlty.BuildSchema15(live)
